@@ -15,6 +15,7 @@ mod fifo;
 mod gen;
 mod p01;
 mod p02;
+mod p03;
 mod p04;
 mod p05;
 mod p06;
@@ -47,6 +48,7 @@ fn modules() -> Vec<Module> {
     vec![
         ("C01", p01::run_all, p01::checks),
         ("C02", p02::run_all, p02::checks),
+        ("C03", p03::run_all, p03::checks),
         ("C04", p04::run_all, p04::checks),
         ("C05", p05::run_all, p05::checks),
         ("C06", p06::run_all, p06::checks),
